@@ -145,6 +145,24 @@ def check_text(ctx, text, tags=()):
     d = content.diff_ref(ref, c, seed="C08")
     if d:
         return ctx.violation(common.diff_key(d), common.diff_text(d), witness)
+    # the delivered transforms are what a consumer evaluates later on: they must
+    # still compute the written formula after the package's own read-only
+    # consumers (serialiser, copy, dependency graph) have looked at the program
+    import copy
+
+    from blackbird.utils import to_DiGraph
+
+    for what, use in (("dumps", lambda: prog.serialize()), ("deepcopy", lambda: copy.deepcopy(prog)), ("to_DiGraph", lambda: to_DiGraph(prog))):
+        try:
+            with common.time_limit(20):
+                use()
+        except Exception as e:  # not this property's concern (C01/C13/C16 decide those)
+            ctx.observe("consumer %s raised %s" % (what, type(e).__name__))
+            continue
+        d = content.diff_ref(ref, content.program_content(prog), seed="C08")
+        if d:
+            return ctx.violation("after-%s:" % what + common.diff_key(d), "after %s the program's transforms no longer compute the written formulas: %s" % (what, common.diff_text(d)), witness)
+        ctx.hook("transforms re-checked after " + what)
     # record the listed orders of multi-register transforms (evidence of order diversity)
     h = hashlib.sha1(text.encode()).hexdigest()[:12]
     orders = ctx.extra.setdefault("orders", {})
